@@ -2,7 +2,7 @@
 // current tree and records, per request, the outcome on the shared Config and the outcome of
 // the same request on a Config freshly loaded from the same bytes.
 //
-//	c10 -seed N -out PREFIX -mode corpus|random|concurrent|replay -n COUNT [-len L] [-g G] [-in FILE]
+//	c10 -seed N -out PREFIX -mode corpus|random|concurrent|stress|replay -n COUNT [-len L] [-g G] [-in FILE]
 //
 // Keys include prefixes/extensions of each other and keys ending in fragments of Go type
 // names (for every pair of result types whose %T names are in suffix relation, name(T1) =
@@ -176,7 +176,7 @@ func registerTypes() {
 // ---------------------------------------------------------------- document and keys
 
 type suffixPair struct {
-	t1, t2 int    // name(t1) = prefix + name(t2)
+	t1, t2 int // name(t1) = prefix + name(t2)
 	prefix string
 	k      string // key k, the other is k+prefix
 }
@@ -187,7 +187,7 @@ func buildDoc(r *rand.Rand) (text []byte, keys []string, pairs []suffixPair) {
 		"l": []any{1, 2, 3}, "ls": []any{"x", "y"}, "ln": []any{1, nil}, "le": []any{},
 		"m": map[string]any{"x": 1, "y": 2}, "ms": map[string]any{"p": "q"}, "me": map[string]any{},
 		"st": map[string]any{"a": 1, "b": "two", "d": "3s"}, "d": "1m30s", "di": 5,
-		"deep": map[string]any{"a": map[string]any{"b": map[string]any{"c": 7, "cu": 8}}},
+		"deep":   map[string]any{"a": map[string]any{"b": map[string]any{"c": 7, "cu": 8}}},
 		"k<nil>": 4, "k": 5, "x[]": 6, "x": 7, "p*": 8, "p": 9,
 	}
 	j := 0
@@ -278,14 +278,17 @@ type convRow struct {
 }
 
 type jcase struct {
-	Kind  string     `json:"kind"`
-	Yaml  string     `json:"yaml"`
-	Types []string   `json:"types"`
-	Ops   []request  `json:"ops"`
-	Obs   []outcome  `json:"obs"`
-	Fresh []outcome  `json:"fresh"`
-	Conv  []convRow  `json:"conv"`
-	G     int        `json:"goroutines,omitempty"`
+	Kind  string    `json:"kind"`
+	Yaml  string    `json:"yaml"`
+	Types []string  `json:"types"`
+	Ops   []request `json:"ops"`
+	Obs   []outcome `json:"obs"`
+	Fresh []outcome `json:"fresh"`
+	Conv  []convRow `json:"conv"`
+	G     int       `json:"goroutines,omitempty"`
+	// stress mode: rounds run / rounds in which some outcome differed from the fresh one
+	StressRounds   int `json:"stress_rounds,omitempty"`
+	StressMismatch int `json:"stress_mismatch_rounds,omitempty"`
 }
 
 func gOutcome(o outcome) string {
@@ -309,8 +312,11 @@ func gVal(o outcome) string {
 	return "(V " + gcx.GStr(o.Val) + ")"
 }
 
+var stressRounds, stressMismatch int
+
 func emit(out *gal.Out, kind string, text []byte, ops []request, obs []outcome, g int) {
-	c := jcase{Kind: kind, Yaml: string(text), Ops: ops, Obs: obs, G: g}
+	c := jcase{Kind: kind, Yaml: string(text), Ops: ops, Obs: obs, G: g,
+		StressRounds: stressRounds, StressMismatch: stressMismatch}
 	for _, t := range types {
 		c.Types = append(c.Types, t.name)
 	}
@@ -406,7 +412,7 @@ func tyByName(name string) int {
 func main() {
 	seed := flag.Uint64("seed", 1, "PRNG seed")
 	prefix := flag.String("out", "c10", "output prefix")
-	mode := flag.String("mode", "random", "corpus|random|concurrent|replay")
+	mode := flag.String("mode", "random", "corpus|random|concurrent|stress|replay")
 	in := flag.String("in", "", "replay: JSON-lines file, one {\"ops\": [...]} per line")
 	n := flag.Int("n", 50, "number of histories")
 	hlen := flag.Int("len", 200, "maximal number of requests per history (per goroutine in concurrent mode)")
@@ -476,6 +482,64 @@ func main() {
 				}
 			}
 			seq("replay", ops)
+		}
+	case "stress":
+		// schedule-free stress: every round loads a fresh Config and releases G goroutines at once,
+		// all issuing the same short, collision-prone request list (rotated per goroutine), so the
+		// first fill of every memo entry is contended.  Outcomes are compared here with the fresh
+		// ones; the first two rounds and every deviating round (at most five) are written as cases.
+		freshOf := map[request]outcome{}
+		type round struct {
+			ops []request
+			obs []outcome
+		}
+		var keep []round
+		for c := 0; c < *n; c++ {
+			base := randomHistory(r, keys, pairs, 12)
+			for _, q := range base {
+				if _, ok := freshOf[q]; !ok {
+					freshOf[q] = q.run(load(text))
+				}
+			}
+			cfg := load(text)
+			res := make([][]outcome, *g)
+			var wg sync.WaitGroup
+			start := make(chan struct{})
+			for i := 0; i < *g; i++ {
+				res[i] = make([]outcome, len(base))
+				wg.Add(1)
+				go func(i int) {
+					defer wg.Done()
+					<-start
+					for j := range base {
+						res[i][j] = base[(j+i)%len(base)].run(cfg)
+					}
+				}(i)
+			}
+			close(start)
+			wg.Wait()
+			var ops []request
+			var obs []outcome
+			bad := false
+			for i := 0; i < *g; i++ {
+				for j := range base {
+					q := base[(j+i)%len(base)]
+					ops, obs = append(ops, q), append(obs, res[i][j])
+					if res[i][j].Kind != freshOf[q].Kind || res[i][j].Val != freshOf[q].Val {
+						bad = true
+					}
+				}
+			}
+			stressRounds++
+			if bad {
+				stressMismatch++
+			}
+			if (c < 2 || bad) && len(keep) < 7 {
+				keep = append(keep, round{ops, obs})
+			}
+		}
+		for _, k := range keep {
+			emit(out, "stress", text, k.ops, k.obs, *g)
 		}
 	case "concurrent":
 		for c := 0; c < *n; c++ {
